@@ -75,6 +75,9 @@ class C07(CompSpec):
             t = sim_task(scen, s, len(out))
             if k % 2:
                 scen["resubmit"] = {"rounds": [{"failed": True, "missing": True, "successful": rng.random() < 0.3}]}
+                if k % 4 == 3:
+                    # resubmit-jobs -s: the groups get new limits and HPC parameters; every batch of the resubmission is judged by them
+                    scen["resubmit"]["rounds"][0]["groups"] = scenario.changed_groups(rng, scen["groups"])
                 t["args"]["cls"] = "sim.resub:ResubSim"
             out.append(t)
         return out
@@ -340,7 +343,7 @@ class C17(CompSpec):
         "configurations generated over the public models (GenericCommandParameters with and without names, integer or string blockers, optional estimates / ext / append flags / "
         "lifecycle commands, 1-3 SubmissionGroups or the default group, SlurmConfig with random optional fields), dumped to JSON with dump(), reloaded with create_config_from_file(): "
         "job order, names, commands, blockers, flags, groups, estimates, lifecycle commands and serialize() must be equal; then the valid file must be accepted by "
-        "JobSubmitter.run_submit_jobs (reaching a recorded sbatch) and each applicable single injected invalidity (dangling blocker, duplicate name, unknown / missing group, duplicate "
+        "JobSubmitter.run_submit_jobs (reaching a recorded sbatch) and each applicable single injected invalidity (dangling blocker, duplicate name, two unnamed entries with one job_id, unknown / missing group, duplicate "
         "group, differing max_nodes / poll_interval / hpc_type, estimate above walltime) must raise before any sbatch; non-trivial = >= 2 jobs with dependencies or >= 2 groups"
     )
 
@@ -488,6 +491,19 @@ class C20(CompSpec):
             scen = scenario.normalize(scenario.gen_scenario(rng, max_jobs=8))
             scen["check_events"] = True
             scen["user"] = {"try_submit": rng.choice([0, 2]), "show_status": 0}
+            if k % 2:
+                # the jobs log events themselves (own events.log under job-outputs, kept open from start to end, one event at each)
+                # while several batches run side by side and end at different times; the events handed to the log are the truth
+                scen["job_events"] = True
+                for j in scen["jobs"]:
+                    if rng.random() < 0.6:
+                        j["blocked_by"] = []
+                for g in scen["groups"]:
+                    g["time_based"] = False
+                    g["batch"] = rng.randint(1, 3)
+                scen["max_nodes"] = None
+                scen["policy"]["finish_w"] = rng.choice([0.02, 0.05, 0.2])
+                scenario.normalize(scen)
             out.append(sim_task(scen, s, len(out)))
         return out
 
@@ -495,6 +511,7 @@ class C20(CompSpec):
         ok = [r for r in results if not r.get("error")]
         out = {"cases_by_part": {}}
         out["simulated_submissions_checked"] = sum(1 for r in ok if r.get("events_checked"))
+        out["events_logged_by_jobs_of_simulated_submissions_checked"] = sum(r.get("job_events_checked") or 0 for r in ok)
         out["events_written_by_real_jade_processes_checked"] = sum(r.get("events_checked") or 0 for r in ok)
         ok = [r for r in ok if "part" in r]
         for r in ok:
